@@ -586,6 +586,8 @@ type vProg struct {
 	script  []vScript // scenario prefix: operations forced on root slices (see TestVerifC07)
 	forceC  int
 	forceT  int
+	forceJ  int
+	rawBuf  []byte // the "caller's buffer" of Value.FromRaw([]byte), recycled by every such step
 	forceK  int // >= 0: kind of the cross-handle operation (3 MoveTo, 4 MoveAndAppendTo) with source = the position given
 	forceH  int // >= 0: the other handle of a forced cross-handle operation
 	hotMax  int
@@ -871,7 +873,7 @@ func (g *vProg) plan() *vPlan {
 				if opt := vOptFields(q.n); len(opt) > 0 && rng.Intn(2) == 0 { // (exponential) histogram point: set one of the optional fields (regression shape of ad68bfbbc)
 					j := opt[rng.Intn(len(opt))]
 					o, nm := vOwner(q.node, vSchema[q.n][j].name)
-					z := int64(rng.Intn(9) + 1)
+					z := int64(rng.Intn(4)) // often 0: present with the default value
 					return &vPlan{term: fmt.Sprintf("OLocal %d %s (LSetI %d 1 %s)", q.h, vPathTerm(q.p), j, vZ(z)), name: "set-optional", writes: []int{q.h},
 						run: func() { vCall(o, "Set"+nm, float64(z)) }}
 				}
@@ -889,7 +891,15 @@ func (g *vProg) plan() *vPlan {
 		g.hot = nil
 		// the remembered position may have disappeared in the meantime (other steps ran in between and removed or
 		// replaced an enclosing element): it is looked up in the current enumeration, never navigated blindly
-		if live := g.lookup(all, hot.pos); live != nil && rng.Intn(10) < 8 {
+		if live := g.lookup(all, hot.pos); live != nil && hot.f.k == kSl && rng.Intn(4) == 0 {
+			// a capacity operation on the slice that has spare (stale) entries behind len: must not change its content
+			g.forceC, g.forceJ = 4, hot.j
+			pl := g.planAt(*live, all)
+			g.forceC, g.forceJ = -1, -1
+			if pl != nil {
+				return pl
+			}
+		} else if live != nil && rng.Intn(10) < 8 {
 			hot.pos = *live
 			g.hotMax, g.hotAvd = hot.maxLen, hot.avoid
 			pl := g.planCrossDir(hot.pos, hot.j, hot.f, all, true)
@@ -979,9 +989,12 @@ func (g *vProg) planAt(pos vPos, all []vPos) *vPlan {
 	j := rng.Intn(len(vSchema[n]))
 	if g.forceC >= 0 {
 		j = 0
+		if g.forceJ >= 0 {
+			j = g.forceJ
+		}
 	}
 	f := vSchema[n][j]
-	z := int64(rng.Intn(9) + 1)
+	z := int64(rng.Intn(10)) // 0 included: a field PRESENT with its zero value is not an absent field
 	switch f.k {
 	case kP:
 		return g.planSetP(pos, j, z)
@@ -1004,6 +1017,41 @@ func (g *vProg) planAt(pos vPos, all []vPos) *vPlan {
 		return &vPlan{term: loc(fmt.Sprintf("LSetRef %d %d %d", j, tag, f.alts[tag-1])), name: "set-empty-oneof-msg", writes: []int{h}, run: func() { vCall(o, "SetEmpty"+f.an[tag-1]) }}
 	case kAny:
 		v := vSlotW(n, node, j).(pcommon.Value)
+		if rng.Intn(8) == 0 {
+			// Value.FromRaw([]byte) from a buffer that the caller RECYCLES: filled, handed over, overwritten straight away
+			zs := make([]int64, rng.Intn(4))
+			for i := range zs {
+				zs[i] = int64(rng.Intn(9) + 1)
+			}
+			want := "VR (Some (7, [" + func() string {
+				it := make([]string, len(zs))
+				for i, z := range zs {
+					it[i] = "[" + vVP(z) + "]"
+				}
+				return "VS [" + strings.Join(it, "; ") + "]"
+			}() + "]))"
+			return &vPlan{term: loc(fmt.Sprintf("LFromRawB %d %s", j, vZs(zs))), name: "value-fromraw-bytes", writes: []int{h}, run: func() {
+				if g.rawBuf == nil {
+					g.rawBuf = make([]byte, 8)
+				}
+				buf := g.rawBuf[:len(zs)]
+				for i, z := range zs {
+					buf[i] = byte(z)
+				}
+				_ = v.FromRaw(buf)
+				for i := range g.rawBuf {
+					g.rawBuf[i] = 0xEE
+				}
+			}, post: func(_ []string, panicked bool) {
+				if panicked {
+					return
+				}
+				_, nd := vNav(g.types[h], g.roots[h], pos.p)
+				if got := vReadSlot(n, nd, j); got != want {
+					g.oracle("from-raw-not-copied", "Value.FromRaw([]byte) then the caller overwrites its buffer: value reads "+got+" want "+want)
+				}
+			}}
+		}
 		c := rng.Intn(12)
 		if c >= 8 {
 			if pl := g.planCross(pos, j, f, all); pl != nil {
@@ -1053,7 +1101,17 @@ func (g *vProg) planAt(pos vPos, all []vPos) *vPlan {
 			return &vPlan{term: loc(fmt.Sprintf("LFromRawP %d %s", j, vZs(zs))), name: "prim-fromraw", writes: []int{h}, run: func() { vCall(w, "FromRaw", vPrimArgs(w, zs)) }}
 		default:
 			c := rng.Intn(6)
-			return &vPlan{term: loc(fmt.Sprintf("LEnsure %d %d", j, c)), name: "prim-ensure-capacity", writes: []int{h}, run: func() { vCall(w, "EnsureCapacity", c) }}
+			rowsBefore := vReadPrimSlice(w)
+			return &vPlan{term: loc(fmt.Sprintf("LEnsure %d %d", j, c)), name: "prim-ensure-capacity", writes: []int{h}, run: func() { vCall(w, "EnsureCapacity", c) },
+				post: func(_ []string, panicked bool) {
+					if panicked {
+						return
+					}
+					_, nd := vNav(g.types[h], g.roots[h], pos.p)
+					if got := vReadPrimSlice(vSlotW(n, nd, j)); got != rowsBefore {
+						g.oracle("capacity-op-changed-content", fmt.Sprintf("EnsureCapacity(%d) of a primitive slice: %s -> %s", c, rowsBefore, got))
+					}
+				}}
 		}
 	case kSl:
 		w := vSlotW(n, node, j)
@@ -1154,7 +1212,26 @@ func (g *vProg) planAt(pos vPos, all []vPos) *vPlan {
 			}})
 		case c == 4:
 			cc := rng.Intn(7)
-			return capObs(&vPlan{term: loc(fmt.Sprintf("LEnsure %d %d", j, cc)), name: "ensure-capacity", writes: []int{h}, run: func() { vCall(w, "EnsureCapacity", cc) }})
+			if cp := vCap(w); cp >= 0 { // arguments around the current length and capacity: no-op, exact, and real re-allocation
+				cc = []int{0, l, cp, cp + 1, cp + 1 + rng.Intn(4), rng.Intn(7)}[rng.Intn(6)]
+				if g.forceC == 4 {
+					cc = cp + 1 + rng.Intn(3)
+				}
+				if l < cp && cc > cp {
+					g.out.Stat("ensure_capacity_realloc_with_spare", 1)
+				}
+			}
+			rowsBefore := vReadSlotRows(n, node, j)
+			return capObs(&vPlan{term: loc(fmt.Sprintf("LEnsure %d %d", j, cc)), name: "ensure-capacity", writes: []int{h}, run: func() { vCall(w, "EnsureCapacity", cc) },
+				post: func(_ []string, panicked bool) {
+					if panicked {
+						return
+					}
+					_, nd := vNav(g.types[h], g.roots[h], pos.p)
+					if got := vReadSlotRows(n, nd, j); strings.Join(got, ";") != strings.Join(rowsBefore, ";") {
+						g.oracle("capacity-op-changed-content", fmt.Sprintf("EnsureCapacity(%d): %v -> %v", cc, rowsBefore, got))
+					}
+				}})
 		case c <= 7: // remove-if
 			mask := make([]bool, l)
 			ms := make([]string, l)
@@ -1705,7 +1782,7 @@ func TestVerifC07(t *testing.T) {
 	rng := vNewRand(7)
 	nprog := vBudget(400, 12)
 	for i := 0; i < nprog; i++ {
-		g := &vProg{rng: rng, out: out, forceC: -1, forceK: -1, forceH: -1, hotMax: -1, hotAvd: -1, roCopy: -1}
+		g := &vProg{rng: rng, out: out, forceC: -1, forceJ: -1, forceK: -1, forceH: -1, hotMax: -1, hotAvd: -1, roCopy: -1}
 		steps := 8 + rng.Intn(18)
 		if i%3 == 0 {
 			// scenario prefix: two slices of one type, both populated, the second one filtered; the
